@@ -926,10 +926,18 @@ class FixedTupleUnmarshaller(AbstractUnmarshaller[compat.TupleT]):
             val: The input value to unmarshal.
         """
         decoded = serdes.load(val)
-        return self.origin(
+        unmarshalled = self.origin(
             routine(v)
             for routine, v in zip(self.ordered_routines, serdes.itervalues(decoded))
         )
+        # `zip` stops at the shorter input: surplus members are dropped (documented),
+        #   but too few members must not yield a tuple of the wrong arity.
+        if len(unmarshalled) != len(self.ordered_routines):
+            raise ValueError(
+                f"Expected {len(self.ordered_routines)} members for {self.t!r}, "
+                f"got {len(unmarshalled)}: {val!r}"
+            )
+        return unmarshalled
 
 
 _ST = tp.TypeVar("_ST")
